@@ -128,8 +128,7 @@ def drive_case(bins, case, idx):
                 dp = os.path.join(cwd, rel)
                 os.makedirs(os.path.dirname(dp), exist_ok=True)
                 if not os.path.lexists(dp):
-                    shutil.copyfile(fx.bins["vhelper"], dp)
-                    os.chmod(dp, 0o755)
+                    fixture.copy_executable(fx.bins["vhelper"], dp, 0o755)
         res = fx.monorail(args, cwd=cwd)
         evs = fx.events()
         recs = []
